@@ -15,10 +15,10 @@ impl Monitor for C09 {
         "C09"
     }
     fn gens(&self, tier: Tier) -> Vec<Gen> {
-        vec![gen("states", tier.pick(3_000, 400_000, 3)), gen("joins", tier.pick(1_500, 150_000, 2)), gen("single-channel", 9 * 3 * 16 * tier.pick(1, 10, 0))]
+        vec![gen("states", tier.pick(3_000, 400_000, 3)), gen("joins", tier.pick(1_500, 150_000, 2)), gen("single-channel", 9 * 3 * 16 * tier.pick(1, 10, 0)), gen("rejoin-500k", tier.pick(270, 5_000, 0))]
     }
     fn rule(&self) -> String {
-        "states: a channel-plan state is reached by a history over {LinkADRReq (DR x power x ChMaskCntl x mask patterns, blocks), NewChannelReq create/delete, DlChannelReq, CFList via OTAA, re-joins from the joined state (accept without or with CFList), set_datarate, bursts of silent uplinks for ADR back-off, join bias}; the history is re-run from scratch for 16 scripted RNG start values and in the reached state one uplink is made for every scripted RNG start value 0..127, so every possible channel choice is observed. joins: join attempts (incl. biases, re-joins after CFList/LinkADR) for every RNG start value. Every TxConfig handed to the radio is judged against the snapshot taken immediately before the call and the regional tables. Class = (region, plan-state hash, frame kind, chosen channel).".into()
+        "states: a channel-plan state is reached by a history over {LinkADRReq (DR x power x ChMaskCntl x mask patterns, blocks), NewChannelReq create/delete, DlChannelReq, CFList via OTAA, re-joins from the joined state (accept without or with CFList), set_datarate, bursts of silent uplinks for ADR back-off, join bias}; the history is re-run from scratch for 16 scripted RNG start values and in the reached state one uplink is made for every scripted RNG start value 0..127, so every possible channel choice is observed. rejoin-500k: a device on the 500 kHz uplink rate joins again and the accept's mask leaves no 500 kHz channel; joins: join attempts (incl. biases, re-joins after CFList/LinkADR) for every RNG start value. Every TxConfig handed to the radio is judged against the snapshot taken immediately before the call and the regional tables. Class = (region, plan-state hash, frame kind, chosen channel).".into()
     }
     fn assumptions(&self) -> Vec<String> {
         vec![
@@ -89,10 +89,22 @@ fn gen_history(reg: Reg, rng: &mut Prng) -> Vec<Step> {
     for _ in 0..n {
         let s = match rng.below(11) {
             10 => {
-                let cf = if rng.chance(1, 4) {
+                let cf = if rng.chance(1, 2) {
                     let mut b = [0u8; 16];
                     if reg.fixed() {
-                        let m: [u8; 9] = rng.arr();
+                        let mut m: [u8; 9] = rng.arr();
+                        match rng.below(4) {
+                            // no 500 kHz channel left (a carried-over 500 kHz rate has nowhere to go)
+                            0 => m[8] = 0,
+                            // one sub-band only
+                            1 => {
+                                let sb = rng.below(8) as usize;
+                                m = [0; 9];
+                                m[sb] = 0xFF;
+                                m[8] = 1 << sb;
+                            }
+                            _ => {}
+                        }
                         b[..9].copy_from_slice(&m);
                         b[15] = 1;
                     } else {
@@ -227,7 +239,28 @@ fn case<const PW: u8, const G: i8>(g: &str, reg: Reg, front: Front, rng: &mut Pr
         join_case::<PW, G>(reg, front, rng, col);
         return;
     }
-    let hist = if g == "single-channel" {
+    let hist = if g == "rejoin-500k" {
+        // fixed plans: the device sits on the 500 kHz uplink rate, then joins again and the accept's
+        // channel mask leaves no 500 kHz channel (dynamic plans: a plain re-join with CFList)
+        let mut b = [0u8; 16];
+        if reg.fixed() {
+            let mut m: [u8; 9] = rng.arr();
+            m[8] = 0;
+            m[rng.below(8) as usize] |= 0x81;
+            b[..9].copy_from_slice(&m);
+            b[15] = 1;
+            let dr500 = if reg == Reg::US915 { 4 } else { 6 };
+            let how = if rng.bool() { Step::SetDr(dr500) } else { Step::Mac(link_adr_req(dr500, 15, 0x00FF, 6, 1), rng.bool()) };
+            vec![how, Step::Send, Step::Rejoin(Some(b)), Step::Send, Step::Send]
+        } else {
+            let (lo, hi) = reg.inner_band();
+            for i in 0..5 {
+                let f = (lo + rng.below(((hi - lo) / 100) as u64) as u32 * 100) / 100;
+                b[3 * i..3 * i + 3].copy_from_slice(&f.to_le_bytes()[..3]);
+            }
+            vec![Step::SetDr(*rng.pick(&uplink_drs(reg))), Step::Send, Step::Rejoin(Some(b)), Step::Send, Step::Send]
+        }
+    } else if g == "single-channel" {
         // exactly one channel enabled, at every index of the plan in turn
         let ch = rng.below(16) as u8;
         let (lo, hi) = reg.inner_band();
